@@ -128,7 +128,8 @@ Inductive ev :=
 | EKill (conn : nat).
 
 (* OErrBad: the error handed to database/sql is (wraps) driver.ErrBadConn *)
-Inductive ores := OSkipped | OOk | OErr | OErrBad | OP2 (done : bool).
+Inductive ores := OSkipped | OOk | OErr | OErrBad | OP2 (done : bool)
+  | OChk (closed : list nat).   (* checker pass: the sessions it closed *)
 
 Inductive op :=
 | OAuto (g : nat) (via : option nat) (slow : bool)
@@ -142,6 +143,8 @@ Inductive op :=
        before it handed back driver.ErrBadConn (db.ExecContext: up to two of these follow a statement) *)
 | ORetire (target : nat)
     (* the pool retires the connection of op #target (idle limit, lifetime, db.Close): driver Close *)
+| OCheck (expired : bool)
+    (* one pass of the two-phase timeout checker; expired: the hold time of whatever is prepared is over *)
 | ONop.
 
 Record env := {
@@ -162,12 +165,16 @@ Record br := {
 }.
 
 (* XAConn fields that outlive a statement on a pooled connection *)
+(* prepareTime: zero (a branch is in phase one / nothing ever happened), set at PREPARE, or
+   pushed 1000 h into the past by cleanXABranchContext *)
+Inductive ptime := PZero | PPrep | POld.
 Record cst := {
   c_active : bool;        (* xaActive *)
   c_kept : bool;          (* isConnKept *)
-  c_cur : option nat      (* xaBranchXid: the branch (by op index) it names; None = nil *)
+  c_cur : option nat;     (* xaBranchXid: the branch (by op index) it names; None = nil *)
+  c_pt : ptime
 }.
-Definition cst0 : cst := {| c_active := false; c_kept := false; c_cur := None |}.
+Definition cst0 : cst := {| c_active := false; c_kept := false; c_cur := None; c_pt := PZero |}.
 
 Record st := {
   s_brs : list br;
@@ -348,7 +355,7 @@ Definition do_auto_core (E : env) (s0 : st) (g : nat) (via : option nat) (slow :
   if e_refuse E k then
     (* cleanXABranchContext *)
     finish (set_conn (add_ev s (EReg xid false 0)) conn
-              {| c_active := false; c_kept := c_kept cs; c_cur := if c_kept cs then c_cur cs else None |}) OErr
+              {| c_active := false; c_kept := c_kept cs; c_cur := if c_kept cs then c_cur cs else None; c_pt := POld |}) OErr
   else
     let s := add_ev s (EReg xid true b) in
     let f := e_fault E in
@@ -362,7 +369,8 @@ Definition do_auto_core (E : env) (s0 : st) (g : nat) (via : option nat) (slow :
                | _, _ => false
                end in
     let s := emit s conn (xa_id xid b) t in
-    let s := set_conn s conn {| c_active := act; c_kept := kept; c_cur := if kept then Some (s_nop s) else None |} in
+    let pt := match o with OOk => if act then PPrep else POld | _ => if act then PZero else POld end in
+    let s := set_conn s conn {| c_active := act; c_kept := kept; c_cur := if kept then Some (s_nop s) else None; c_pt := pt |} in
     finish (set_brs s (mk_br (s_nop s) xid b conn d kept (negb (start_ok t)) :: s_brs s)) (if bad then OErrBad else o).
 
 (* an error that is driver.ErrBadConn makes database/sql drop the connection *)
@@ -415,7 +423,11 @@ Definition do_p2 (E : env) (s : st) (t : nat) (commit stranger : bool) : st :=
       let c := if commit then COMMIT else ROLLBACK in
       let strg := stranger && is_prepared (r_db r) in
       (* stranger: the phase-one process is gone: session dropped, nobody holds the connection *)
-      let s := if strg then close_conn (set_brs (add_ev s (EKill (r_conn r))) (upd_br unkeep t (kill_conn (r_conn r) (s_brs s)))) (r_conn r) else s in
+      let s := if strg then
+                 (if existsb (Nat.eqb (r_conn r)) (s_closed s)
+                  then set_brs s (upd_br unkeep t (kill_conn (r_conn r) (s_brs s)))   (* the session is closed already *)
+                  else close_conn (set_brs (add_ev s (EKill (r_conn r))) (upd_br unkeep t (kill_conn (r_conn r) (s_brs s)))) (r_conn r))
+               else s in
       let d := if strg then srv_kill (r_db r) else r_db r in
       let kept := if strg then false else r_kept r in
       let conn := if kept then r_conn r else s_nconn s in
@@ -430,12 +442,37 @@ Definition do_p2 (E : env) (s : st) (t : nat) (commit stranger : bool) : st :=
       let cs := get_cst s conn in
       let rel := if kept && c_kept cs then c_cur cs else None in
       let s := if kept && c_kept cs
-               then set_conn s conn {| c_active := c_active cs; c_kept := false; c_cur := c_cur cs |} else s in
+               then set_conn s conn {| c_active := c_active cs; c_kept := false; c_cur := c_cur cs; c_pt := c_pt cs |} else s in
       let l := upd_br (fun x => set_db_kept d' (r_kept x) true x) t (s_brs s) in
       let l := match rel with Some o => upd_br unkeep o l | None => l end in
       finish (set_brs s l) (OP2 (if dead then false else res_ok (snd cr)))
     else finish s OSkipped
   end.
+
+(* XAConn.CloseForce: close the session, clean the branch context, release the keeper entry of
+   the identifier the connection carries *)
+Definition force_one (s : st) (c : nat) : st :=
+  let cs := get_cst s c in
+  let l := kill_conn c (s_brs s) in
+  let l := match (if c_kept cs then c_cur cs else None) with Some o => upd_br unkeep o l | None => l end in
+  {| s_brs := l; s_nreg := s_nreg s; s_nconn := s_nconn s; s_nop := s_nop s; s_cnt := s_cnt s;
+     s_jour := s_jour s; s_out := s_out s;
+     s_conns := (c, {| c_active := false; c_kept := false; c_cur := c_cur cs; c_pt := POld |}) :: s_conns s;
+     s_opconn := s_opconn s; s_gone := s_gone s; s_closed := c :: s_closed s |}.
+
+(* the checker visits the keeper: a connection some entry names is closed when its prepare time
+   is over: prepared longer than the hold time, or pushed into the past by a cleaned context;
+   a connection still in phase one (zero prepare time) is left alone *)
+Definition due (s : st) (expired : bool) (c : nat) : bool :=
+  existsb (fun r => r_kept r && Nat.eqb (r_conn r) c) (s_brs s) &&
+  match c_pt (get_cst s c) with POld => true | PPrep => expired | PZero => false end.
+
+Definition do_check (E : env) (s : st) (expired : bool) : st :=
+  if e_detach E then   (* only for servers that finish a prepared branch from another session *)
+    let cs := filter (due s expired) (seq 0 (s_nconn s)) in
+    let now := filter (fun c => negb (existsb (Nat.eqb c) (s_closed s))) cs in
+    finish (fold_left force_one cs s) (OChk now)
+  else finish s (OChk []).
 
 Definition step (E : env) (s : st) (o : op) : st :=
   match o with
@@ -451,6 +488,7 @@ Definition step (E : env) (s : st) (o : op) : st :=
                              else finish (retire_conn s c) OOk
                  | None => finish s OSkipped
                  end
+  | OCheck e => do_check E s e
   | ONop => finish s OSkipped
   end.
 
